@@ -130,11 +130,7 @@ func cmdCheck(prop, tier string) int {
 			for _, c := range cs {
 				pkgs[c.Pkg] = true
 			}
-			var pats []string
-			for p := range pkgs {
-				pats = append(pats, p)
-			}
-			sort.Strings(pats)
+			pats := []string{"./..."}
 			eng, err := loadEngine(mod, pats, overlay, db)
 			if err != nil {
 				frMu.Lock()
